@@ -942,4 +942,6 @@ def run(prog, ctx):
                        "and XXH64 on random inputs; the buffered-length counter of each Hasher::write is obtained as a select-tree over all paths and "
                        "checked against (entry + len) mod block for every entry value and every length up to three blocks")
     res.not_decided = "chunking independence of the buffered byte contents; the tail loops of XXH64::finish64"
+    # the seed travels at 64 bits from the public constructors to the hashers
+    C.seed_width_rule(res, prog, "C16.S")
     return res
